@@ -1,5 +1,5 @@
 (* C07 - property theorems only. *)
-From V Require Import Lib.Base Lib.Cbor Lib.CborParse Lib.CborSpan C07.Model C07.Basics C07.Walkers C07.Top.
+From V Require Import Lib.Base Lib.Cbor Lib.CborParse Lib.CborSpan C07.Model C07.Basics C07.Walkers C07.Top C07.Components.
 Local Open Scope nat_scope.
 
 (* the bytes a reported range selects *)
@@ -40,7 +40,7 @@ Proof.
   intros s b Hw Hs Hl.
   destruct (extract_shelley s b Hw Hs Hl) as (f0 & h & f1 & bodies & f2 & wits & aux & rest & txs & E & Ex & Len & H).
   exists f0, h, f1, bodies, f2, wits, aux, rest, txs. repeat split; auto.
-  intros i t Ht. destruct (H i t Ht) as (body & w & Hb & Hwi & Rb & Rw & Ho & Hm).
+  intros i t Ht. destruct (H i t Ht) as (body & w & Hb & Hwi & Rb & Rw & Ho & Hm & _).
   exists body, w. repeat split; auto; try (apply range_is_slice; assumption).
   - destruct (body_outputs body) as [[[o fo] outs]|]; [|exact Ho]. destruct Ho as [Hlen Ho]. split; [exact Hlen|].
     intros m x Hx. destruct (Ho m x Hx) as (r & Hr & R). exists r. split; [exact Hr|]. apply range_is_slice. exact R.
@@ -60,7 +60,7 @@ Proof.
   intros s b txs Hw Hs Hl Hex t Hin.
   destruct (extract_shelley s b Hw Hs Hl) as (f0 & h & f1 & bodies & f2 & wits & aux & rest & txs' & E & Ex & Len & H).
   rewrite Hex in Ex. injection Ex as <-. apply In_nth_error in Hin. destruct Hin as [i Hi].
-  destruct (H i t Hi) as (body & w & Hb & Hwi & Rb & Rw & Ho & Hm).
+  destruct (H i t Hi) as (body & w & Hb & Hwi & Rb & Rw & Ho & Hm & _).
   cbv zeta. split; [eapply range_is_in; eauto|]. split; [eapply range_is_in; eauto|]. split.
   - destruct Hm as [->|(f & kvs & j & fk & k & v & _ & _ & _ & R)]; [cbn; lia|eapply range_is_in; eauto].
   - intros r Hr. destruct (body_outputs body) as [[[o fo] outs]|]; [|rewrite Ho in Hr; destruct Hr].
@@ -70,6 +70,45 @@ Proof.
     destruct (Ho m x Ex) as (r' & Hr' & R). rewrite Hm' in Hr'. injection Hr' as <-. eapply range_is_in; eauto.
 Qed.
 Print Assumptions C07_in_range.
+
+(* C07_witness_components_exact: every datum / redeemer / script range that
+   extractWitnessComponentOffsets reports for a witness set w located at `base`
+   in B selects exactly the encoding of a component x of w of that kind
+   (comp_in: a datum under key 4, the data of the redeemer with that
+   (tag, index) under key 5 in list or map form, a script under key
+   1/3/6/7/8 of the reported type), for every header form of the witness map,
+   of the component arrays / the redeemer map and of everything nested, and
+   through any tag wrappers (258 = set) around the datum and script arrays *)
+Theorem C07_witness_components_exact : forall B base w,
+  wf w -> size_ok w -> wit_shape w = true -> located B base w ->
+  forall c, In c (witness_components (enc w) base) ->
+    exists x, sel B (comp_range c) = enc x /\ fst (comp_range c) + snd (comp_range c) <= length B /\ comp_in w c x.
+Proof.
+  intros B base w Hw Hs Hsh HL c Hc. destruct (witness_components_exact B base w Hw Hs Hsh HL c Hc) as (x & R & Hin).
+  exists x. split; [apply range_is_slice; exact R|]. split; [eapply range_is_in; eauto|exact Hin].
+Qed.
+Print Assumptions C07_witness_components_exact.
+
+(* ... and in a block: the component entries of transaction i are those of witness set i *)
+Theorem C07_block_witness_components_exact : forall streaming b,
+  wf b -> size_ok b -> shelley_like (negb streaming) b = true ->
+  exists f0 h f1 bodies f2 wits aux rest txs,
+    b = Arr f0 (h :: Arr f1 bodies :: Arr f2 wits :: aux :: rest) /\
+    extract_gen false streaming (enc b) = Done txs /\
+    forall i t w, nth_error txs i = Some t -> nth_error wits i = Some w -> wit_shape w = true ->
+      forall c, In c (l_comps t) -> exists x, sel (enc b) (comp_range c) = enc x /\ comp_in w c x.
+Proof.
+  intros s b Hw Hs Hl.
+  destruct (extract_shelley s b Hw Hs Hl) as (f0 & h & f1 & bodies & f2 & wits & aux & rest & txs & E & Ex & Len & H).
+  exists f0, h, f1, bodies, f2, wits, aux, rest, txs. repeat split; auto.
+  intros i t w Ht Hwi Hsh c Hc. destruct (H i t Ht) as (body & w' & Hb & Hwi' & Rb & Rw & Ho & Hm & Hcomps).
+  rewrite Hwi in Hwi'. injection Hwi' as <-. rewrite Hcomps in Hc. destruct Rw as [Lw _].
+  assert (Hww : wf w).
+  { subst b. apply (wf_children f2 wits i w); [|exact Hwi]. apply (wf_children f0 _ 2 _ Hw). reflexivity. }
+  destruct (witness_components_exact (enc b) _ w Hww (size_ok_located _ _ _ Lw Hs) Hsh Lw c Hc) as (x & R & Hin).
+  exists x. split; [apply range_is_slice; exact R|exact Hin].
+Qed.
+Print Assumptions C07_block_witness_components_exact.
 
 (* ---- the pinned tree: header size assumed from the element count ---- *)
 (* a one-transaction block whose outer array header is 0x98 0x05 *)
